@@ -502,6 +502,10 @@ def type_facts(val, st: St | None = None):
             kk = z3.Const("tk", V)
             mem = st.heap.c["dh"][t][kk]
             return [smt.is_dict(t), smt.forall([kk], z3.Implies(mem, smt.is_str(kk)), patterns=[mem])]
+        if st is not None and val.ty[1] == INT and KEY_TYPE_FACTS[0]:
+            kk = z3.Const("tk", V)
+            mem = st.heap.c["dh"][t][kk]
+            return [smt.is_dict(t), smt.forall([kk], z3.Implies(mem, smt.is_int(kk)), patterns=[mem])]
         return [smt.is_dict(t)]
     if k == "set":
         return [smt.is_set(t)]
